@@ -45,7 +45,10 @@ CONFIG = {
              "expectation.  Data sets: 1-3 namespaces "
              "each with a tree list and/or 1-3 matrices (from_dict, concatenate, or with new_character_subset; "
              "continuous ones with negative / small-exponent values) added in drawn order, labels optionally with "
-             "hyphens/blanks, NEXUS with suppress_block_titles in {None, False} and NeXML.  "
+             "hyphens/blanks; a namespace may also carry no data block at all (never used, or its matrix added and "
+             "removed again); written to NEXUS with suppress_block_titles in {not passed, None, False} and to NeXML, "
+             "each with suppress_unreferenced_taxon_namespaces in {not passed, False, True}; the ordered label lists "
+             "of all re-read namespaces must equal those of the namespaces that had to be written.  "
              "Exhaustive: every symbol of every type as 1x1 and 2x1 matrix through every supported format variant.  "
              "Non-trivial = matrix with >= 1 non-fundamental symbol (continuous: >= 1 non-integral value), or a "
              "route other than plain from_dict, or >= 2 hops; data set with >= 2 namespaces; distinct = whole case."),
@@ -561,8 +564,9 @@ def show(rows, limit=6):
     return repr([(l, c if len(c) <= 24 else c[:24] + ["...%d" % len(c)]) for l, c in rows[:limit]])
 
 
-def known_key(info, fmt):
+def known_key(info, fmt, failure=None):
     """Narrow known-finding key when the input predicate of a listed finding holds for (case info, format), else None.
+    `failure` is "<ExceptionType>@<innermost library function>" when the verdict comes from an exception.
 
     info = {"labels": [...], "fresh_concat_standard": bool (the matrix about to be written came straight out of
     concatenate() on standard matrices), "cells": bool (NeXML cell markup)}"""
@@ -570,7 +574,8 @@ def known_key(info, fmt):
         return KF_NEXUS_SEMI
     if fmt == "nexml" and info.get("fresh_concat_standard") and info.get("cells"):
         return KF_CONCAT_STD
-    if fmt == "nexus" and info.get("subset_carrier_not_first"):
+    if (fmt == "nexus" and info.get("subset_carrier_not_first")
+            and failure == "LinkRequiredError@_get_char_matrix"):  # raised while the CHARSET statement is resolved
         return KF_SETS_LINK
     return None
 
@@ -608,7 +613,7 @@ def lib_call(ctx, clause, key, info, fmt, fn, *args, **kwargs):
         if not runner.exc_in_dendropy(e):
             raise
         best, _ = runner.innermost_dendropy_frame(e)
-        kk = known_key(info, fmt) or "%s:%s@%s" % (key, type(e).__name__, best[0])
+        kk = known_key(info, fmt, "%s@%s" % (type(e).__name__, best[0])) or "%s:%s@%s" % (key, type(e).__name__, best[0])
         ctx.fail(clause, kk, "%s: %s (at %s:%s)" % (type(e).__name__, str(e)[:600], best[1], best[2]))
         raise runner.KnownSkip()
 
@@ -984,11 +989,16 @@ def dataset_cases(draw):
                          "nucleotide"] if t in SUPPORT[schema]]
     nss = []
     for i in range(nns):
-        content = draw(st.sampled_from(["trees", "matrix", "both", "both"]))
-        n = draw(st.integers(1 if content == "matrix" else 2, 5))
+        # "none": a namespace no tree list / matrix of the data set refers to; "removed": its matrix is added to the
+        # data set and taken out again before writing
+        content = draw(st.sampled_from(["trees", "matrix", "matrix", "both", "both", "both", "none", "none", "removed"]))
+        n = draw(st.integers(1 if content in ("matrix", "none", "removed") else 2, 5))
         shared = draw(st.integers(0, 3)) == 0  # label lists of different namespaces may overlap
         labels = draw(dataset_labels(n, "" if shared else "n%d" % i, draw(st.integers(0, 2)) == 0))
-        ns = {"title": draw(st.sampled_from(_TITLES)), "labels": labels, "trees": None, "matrices": []}
+        ns = {"title": draw(st.sampled_from(_TITLES)), "labels": labels, "trees": None, "matrices": [],
+              "removed": content == "removed"}
+        if content == "removed":
+            content = "matrix"
         if content in ("trees", "both"):
             ntrees = draw(st.integers(1, 2))
             ns["trees"] = [draw(shapes.shapes(min_leaves=n, max_leaves=n, max_arity=3)) for _ in range(ntrees)]
@@ -1000,9 +1010,11 @@ def dataset_cases(draw):
     case = {"schema": schema, "nss": nss, "matrices_first": draw(st.booleans()), "shuffle": draw(st.integers(0, 10 ** 6)),
             "subset_carriers_first": draw(st.integers(0, 3)) > 0}
     if schema == "nexus":
-        case["sbt"] = draw(st.sampled_from([None, False]))
+        # "default" = the option is not passed at all
+        case["sbt"] = draw(st.sampled_from(["default", "default", None, False]))
     else:
         case["seqs"] = draw(st.booleans())
+    case["suppress_unreferenced"] = draw(st.sampled_from([None, None, None, False, True]))
     return case
 
 
@@ -1013,6 +1025,8 @@ def check_dataset(ctx, case):
     want_trees, want_mats = [], []
     all_labels = []
     adders = []
+    want_ns = []   # [(ordered labels, referenced by a block that is written)]
+    to_remove = []
     for spec in case["nss"]:
         ns = dendropy.TaxonNamespace(label=spec["title"])
         taxa = {}
@@ -1020,6 +1034,8 @@ def check_dataset(ctx, case):
             taxa[i] = ns.new_taxon(label=l)
         all_labels.extend(spec["labels"])
         ds.add_taxon_namespace(ns)
+        want_ns.append((list(spec["labels"]), not spec.get("removed")
+                        and (spec["trees"] is not None or bool(spec.get("matrices") or spec.get("matrix")))))
         if spec["trees"] is not None:
             tl = dendropy.TreeList(taxon_namespace=ns)
             for tspec in spec["trees"]:
@@ -1038,6 +1054,10 @@ def check_dataset(ctx, case):
                 m = cls.from_dict(collections.OrderedDict(rows), taxon_namespace=ns)
                 for sub in mspec.get("subsets") or []:
                     m.new_character_subset(label=sub["label"], character_indices=sub["indices"])
+            if spec.get("removed"):
+                to_remove.append(m)
+                ds.add_char_matrix(m)
+                continue
             adders.append((0, ds.add_char_matrix, m, {"ns": list(spec["labels"]), "dtype": dtype, "rows": rows,
                                                        "subsets": bool(m.character_subsets)}))
     random.Random(case.get("shuffle", 0)).shuffle(adders)
@@ -1051,6 +1071,8 @@ def check_dataset(ctx, case):
             want_mats.append(a[3])
         else:
             want_trees.append(a[3])
+    for m in to_remove:
+        ds.char_matrices.remove(m)
     # position (among the character matrices, in document order) of the matrices that carry character subsets
     carriers = [k for k, w in enumerate(want_mats) if w["subsets"]]
     if carriers:
@@ -1064,12 +1086,21 @@ def check_dataset(ctx, case):
     nns = len(case["nss"])
     kw = {}
     if schema == "nexus":
-        kw["suppress_block_titles"] = case["sbt"]
-        name = "nexus:sbt=%r" % (case["sbt"],)
+        if case["sbt"] != "default":
+            kw["suppress_block_titles"] = case["sbt"]
+        name = "nexus:sbt=%s" % (case["sbt"],)
     else:
         kw["markup_as_sequences"] = case["seqs"]
         name = "nexml"
+    if case.get("suppress_unreferenced") is not None:
+        kw["suppress_unreferenced_taxon_namespaces"] = case["suppress_unreferenced"]
+    if case.get("suppress_unreferenced"):
+        name += ":referenced_only"
+        want_ns = [w for w in want_ns if w[1]]
+    n_ref = sum(1 for w in want_ns if w[1])
     ctx.cls("dataset:%s:namespaces=%d" % (name, nns))
+    if n_ref < len(want_ns):
+        ctx.cls("dataset:%s:written_namespaces referenced=%d unreferenced=%d" % (schema, n_ref, len(want_ns) - n_ref))
     titles = [s["title"] for s in case["nss"]]
     if len(set(t.upper() for t in titles if t)) < len([t for t in titles if t]):
         ctx.cls("dataset:titles_equal_up_to_case")
@@ -1082,8 +1113,9 @@ def check_dataset(ctx, case):
                    {"labels": all_labels, "subset_carrier_not_first": any(k > 0 for k in carriers)},
                    schema, dendropy.DataSet.get, data=text, schema=schema)
     doc = lambda: "\n--- document ---\n%s" % text[:2500]
-    ctx.check(len(ds2.taxon_namespaces) == nns, "dataset_namespace_count", "C09.ds_ns_count:" + name,
-              lambda: "got %d want %d%s" % (len(ds2.taxon_namespaces), nns, doc()))
+    got_nss = [[t.label for t in x] for x in ds2.taxon_namespaces]
+    ctx.check(got_nss == [w[0] for w in want_ns], "dataset_namespaces_equal", "C09.ds_ns_count:" + name,
+              lambda: "got %r want %r%s" % (got_nss, [w[0] for w in want_ns], doc()))
     ctx.check(len(ds2.tree_lists) == len(want_trees) and len(ds2.char_matrices) == len(want_mats),
               "dataset_block_count", "C09.ds_block_count:" + name,
               lambda: "tree lists %d/%d matrices %d/%d%s" % (len(ds2.tree_lists), len(want_trees),
@@ -1112,7 +1144,7 @@ def check_dataset(ctx, case):
         got = read_rows(w["dtype"], m)
         ctx.check(rows_equal(w["dtype"], got, w["rows"]), "dataset_matrix_rows_equal", "C09.ds_matrix_rows:" + name,
                   lambda: "got %s want %s%s" % (show(got), show(w["rows"]), doc()))
-    if nns >= 2 or len(want_mats) >= 2:
+    if len(want_ns) >= 2 or len(want_mats) >= 2:
         ctx.nontrivial(case)
     ctx.sample("dataset:%s:%d" % (name, nns), case)
 
